@@ -29,6 +29,7 @@ import PrqlModel.Lemmas.RelBlockPerm
 import PrqlModel.Lemmas.RelBlockSplit
 import PrqlModel.Lemmas.Reorder
 import PrqlModel.Lemmas.Preprocess
+import PrqlModel.Lemmas.Anchor
 import PrqlModel.Lemmas.SelectPipe
 import PrqlModel.Lemmas.AggPerm
 namespace Props.C01
@@ -705,5 +706,51 @@ theorem assemble_places_like_pushK (w : Nat) (seg : List Model.Rel.Tr) :
   exact this _ _ rfl
 
 end ClauseAssembly
+
+/-! ### the real splitter (requirements, complexity caps, `can_materialize`: mirror Model.Anchor, replayed call by call) cuts
+where the split table allows - never later -/
+section RealSplitter
+open Model.Anchor Lemmas.Anchor
+
+/-- the transforms `split_off_back` scans over (the atomic part before its Selects are dropped), in pipeline order -/
+def scanned (decls : List Comp) (p : List Model.Anchor.Tr) (out : List CId) : List Model.Anchor.Tr :=
+  (passedRev decls p.reverse { required := shouldSelect (allowUpTo (fromCids out) Cx.highest) true }).reverse
+
+/-- the pipeline is the part left in front followed by the scanned part (nothing is reordered or lost) ... -/
+theorem real_splitter_cuts_a_suffix (decls : List Comp) (p : List Model.Anchor.Tr) (out : List CId) :
+    p = (splitOffBack decls p out).rest ++ scanned decls p out := by
+  have h := scanRev_splits decls p.reverse { required := shouldSelect (allowUpTo (fromCids out) Cx.highest) true }
+  have h2 := congrArg List.reverse h
+  simp only [List.reverse_reverse, List.reverse_append] at h2
+  unfold splitOffBack scanned
+  exact h2
+
+/-- ... and the kinds of the scanned part are a suffix of what the scan over the split table alone keeps: whatever the
+requirements and the compute declarations, the real scan stops where the table says or earlier -/
+theorem real_splitter_refines_table_scan (decls : List Comp) (p : List Model.Anchor.Tr) (out : List CId) :
+    ∃ pre, atomicSuffix (p.map Model.Anchor.Tr.kind) = pre ++ (scanned decls p out).map Model.Anchor.Tr.kind := by
+  obtain ⟨pre, h⟩ := scan_refines_tableScan decls p.reverse { required := shouldSelect (allowUpTo (fromCids out) Cx.highest) true } []
+  refine ⟨pre, ?_⟩
+  unfold atomicSuffix scanned
+  rw [← List.map_reverse]
+  simpa using h
+
+/-- hence the clause-order theorem holds for the block the REAL splitter forms: no transform in it is followed by one it
+must be split from (pairs of the listed gap Take|Distinct aside) -/
+theorem real_splitter_respects_clause_order (decls : List Comp) (p : List Model.Anchor.Tr) (out : List CId)
+    (pre mid post : List Kind) (a b : Kind)
+    (h : (scanned decls p out).map Model.Anchor.Tr.kind = pre ++ a :: (mid ++ b :: post)) (hb : recorded b = true)
+    (hk : knownGap a b = false) :
+    mustSplit a b ((recordedOf (mid ++ b :: post)).contains .Aggregate) = false := by
+  obtain ⟨pre0, h0⟩ := real_splitter_refines_table_scan decls p out
+  rw [h] at h0
+  exact split_respects_clause_order (p.map Model.Anchor.Tr.kind) (pre0 ++ pre) mid post a b (by rw [h0]; simp) hb hk
+
+/-- the two scans on a pipeline where a compute cannot be materialised: the table alone would keep `derive | take`, the real
+scan stops in front of the windowed derive that the take's range needs plain -/
+example : (scanned [] [.from [0], .compute { id := 1, expr := .col 0, win := some [], isAgg := false }, .filter (.col 1)] [0, 1]).length ≤
+    (atomicSuffix [.From, .Compute, .Filter]).length := by decide
+
+end RealSplitter
 
 end Props.C01
